@@ -1263,3 +1263,9 @@ var _ = late(func() {
 		Clause: "same rule as C11.bg-cancellable / C12.bg-cancellable: the goroutines that own a source (BatchFunc's reader, Merge's workers) can be interrupted wherever they block - a reader stuck on a bare send never reaches its deferred Close of the source, and Close of the returned stream never returns",
 		Run:    func(c *Ctx, r *R) { ruleBgCancellable(c, r, "stream.BatchFunc"); ruleBgCancellable(c, r, "stream.Merge") }})
 })
+
+var _ = late(func() {
+	properties["C11"].Rules = append(properties["C11"].Rules, &Rule{ID: "C11.no-discarded-recv", Floor: 2,
+		Clause: "same rule as C08.no-discarded-pull, for batchStream.Next: a batch taken off batchC is returned on every path that follows (the batcher considers it delivered as soon as the send completes); a context test placed after the receive throws a delivered batch away",
+		Run:    subRule(func(c *Ctx, r *R) { ruleNoDiscardedPull(c, r, "stream") }, "batchStream")})
+})
